@@ -8,6 +8,7 @@ independence of unrelated objects."""
 import re
 
 from .. import core, runner
+from . import spectwin
 from . import c03
 
 THEOREMS = ["ZI.Classes.C01_asis_violates", "ZI.Classes.C01_repaired_witness", "ZI.Graph2.C02_implied",
@@ -328,6 +329,11 @@ def check(tier):
         script = runner.ddmin(f["script"], lambda s: still_fails(s, f["mode"], k), budget=30)
         chk.violation("%s [mode=%s]" % (f["message"], f["mode"]),
                       dict(kind="history", mode=f["mode"], script=script, observed=f["observed"], expected_by="spec", minimised=True))
+    # "for every object": objects of every storage shape (with a __dict__, fully slotted, seen through super) on the real code
+    for f in spectwin.run(chk, tier, rnd, want=("c01",))[:2]:
+        fails.append(f)
+        chk.violation(f["message"], dict(kind="input", mode=f["mode"], layer="spectwin", script=f["script"], observed=f["observed"], expected=f["expected"],
+                                         expected_by="spec", minimised=True))
     if not fails:
         runner.report_divergences(chk, divs, "declarations-layer correspondence (ZI.Classes vs declarations.py, C fast paths)",
                                   "sandwich oracle accepted all %d answers" % chk.counters.get("answers_checked", 0))
@@ -363,6 +369,12 @@ def replay(path):
     rep = runner.load_replay(path)
     script = rep["script"]
     mode = rep.get("mode", "c")
+    if rep.get("layer") == "spectwin":
+        if spectwin.replay_script(script, "C01"):
+            print("VIOLATION property=C01 replay=%s" % path)
+            return 1
+        print("replay passes on the current tree")
+        return 0
     out = core.run_impl("classes", script, mode)
     bad = oracle(_Null(), script, out)
     model = core.run_model("classes", script, ["fixed"])
